@@ -84,10 +84,12 @@ PROPS = {
             "parts": [rp("inputs", "TestC17Load", (300, 2), (5000, 8)), rp("inputs", "TestC17Corrupt", (600, 2), (10000, 8)), rp("inputs", "TestC17Equals", (5000, 2), (100000, 8)), rp("inputs", "TestC17Reload", (300, 2), (6000, 8)),
                       rp("procs", "TestC17Binary", (3, 1), (40, 4), helpers=["cmd/vhelper", "pkg:github.com/Flowpack/prunner/cmd/prunner"]),
                       {"pkg": "inputs", "fuzz": "FuzzC17Load", "thorough": {"fuzztime": "180s", "wall": 900}}]},
-    "C18": {"level": "exploration", "assumptions": ["the harness wires the task runner exactly as app.appAction does (pipeline env as runner env, real FileOutputStore); a change to that closure in app/app.go is not seen", "real processes via cmd/vhelper; the environment of the test process stands for the prunner process"],
-            "parts": [rp("procs", "TestC18", (40, 2), (1500, 8), helpers=["cmd/vhelper"])]},
-    "C19": {"level": "exploration", "assumptions": ["the harness wires the task runner as app.appAction does; real processes via cmd/vhelper", "task names are single path components (no '/' or NUL)"],
-            "parts": [rp("procs", "TestC19", (40, 2), (400, 8), helpers=["cmd/vhelper"])]},
+    "C18": {"level": "exploration", "assumptions": ["the in-process part wires the task runner as app.appAction does (pipeline env as runner env, real FileOutputStore); the binary part runs the program itself", "real processes via cmd/vhelper; the environment of the test process stands for the prunner process"],
+            "parts": [rp("procs", "TestC18", (40, 2), (1500, 8), helpers=["cmd/vhelper"]),
+                      rp("procs", "TestC18Binary", (4, 1), (80, 4), helpers=["cmd/vhelper", "pkg:github.com/Flowpack/prunner/cmd/prunner"])]},
+    "C19": {"level": "exploration", "assumptions": ["the in-process part wires the task runner as app.appAction does, the binary part runs the program itself; real processes via cmd/vhelper", "task names are single path components (no '/' or NUL)"],
+            "parts": [rp("procs", "TestC19", (40, 2), (400, 8), helpers=["cmd/vhelper"]),
+                      rp("procs", "TestC19Binary", (4, 1), (80, 4), helpers=["cmd/vhelper", "pkg:github.com/Flowpack/prunner/cmd/prunner"])]},
     "C20": {"level": "exploration", "assumptions": ["/proc is the process table; processes are identified by a per-run marker in argv", "processes that leave their process group (setsid) are outside the statement", "two recorded findings (known_findings.txt) are excluded from the generated trees by construction and exercised separately"],
             "parts": [rp("procs", "TestC20", (20, 3), (600, 8), helpers=["cmd/vhelper"])]},
 }
